@@ -18,9 +18,15 @@ git apply $O/patch.diff || { echo "{\"id\":\"$ID/$M\",\"applies\":false}"; exit 
 run_demo; MUT=$?
 # the baseline suite; unshare gives a private network namespace when available so fixed ports do not collide
 if unshare -rn true 2>/dev/null; then RUNNER="unshare -rn sh -c"; PRE="ip link set lo up 2>/dev/null;"; else RUNNER="sh -c"; PRE=""; fi
-OUT=$($RUNNER "$PRE CARGO_TARGET_DIR=$W/target timeout 1500 cargo test --workspace --no-fail-fast --offline 2>&1")
-FAILED=$(echo "$OUT" | grep -E "^test .* FAILED" | grep -v "test_tcp" | wc -l)
-PASSED=$(echo "$OUT" | grep -E "^test result" | awk '{p+=$4} END {print p+0}')
-COMPILED=$(echo "$OUT" | grep -cE "^error(\[|:)")
+# examples/ping's test_unix_multiplex occasionally hangs on the unmodified tree under load (a race in the
+# example's own multiplex loop): an attempt that was cut short by the timeout is repeated
+for ATTEMPT in 1 2 3; do
+  OUT=$($RUNNER "$PRE CARGO_TARGET_DIR=$W/target timeout 700 cargo test --workspace --no-fail-fast --offline 2>&1")
+  FAILED=$(echo "$OUT" | grep -E "^test .* FAILED" | grep -v "test_tcp" | wc -l)
+  PASSED=$(echo "$OUT" | grep -E "^test result" | awk '{p+=$4} END {print p+0}')
+  COMPILED=$(echo "$OUT" | grep -cE "^error(\[|:)")
+  if [ "$PASSED" -ge 60 ] || [ "$FAILED" -gt 0 ] || [ "$COMPILED" -gt 0 ]; then break; fi
+  pkill -f "$W/target/debug/deps" 2>/dev/null
+done
 git checkout -q -- .
 echo "{\"id\":\"$ID/$M\",\"applies\":true,\"demo_clean_exit\":$CLEAN,\"demo_mutant_exit\":$MUT,\"suite_passed\":$PASSED,\"suite_failed_nonflaky\":$FAILED,\"compile_errors\":$COMPILED}"
